@@ -129,12 +129,17 @@ class Ctx:
         return (x * y).modp()
 
 
+_CANON = {}     # canonical-integer symbols -> residue normal forms (filled by toU64_summary of the active context)
+
+
 def to_fv(v):
     if isinstance(v, FV):
         return v
     if isinstance(v, int):
         return FV.const(v)
     if isinstance(v, Poly):
+        if _CANON and any(x in _CANON for x in v.vars()):
+            v = v.subst({x: _CANON[x] for x in v.vars() if x in _CANON})     # canon{nf} is congruent to nf
         return FV(v.modp(), 'u64')
     if isinstance(v, Undef):
         raise Incomplete('undefined lane used as a field operand')
@@ -261,6 +266,7 @@ def toU64_summary(ctx):
             raise Incomplete('toU64 of a symbolic field value (data-dependent integer)')
         nm = 'canon{%s}' % (x.nf,)
         ctx.canon[nm] = x.nf
+        _CANON[nm] = x.nf
         return Poly.var(nm)
 
     def f(I, args, ins):
